@@ -43,6 +43,10 @@ func (P) Monitor(c *hx.CaseRun) []hx.Failure {
 		seen[mon+class] = true
 		fs = append(fs, hx.Failure{Monitor: mon, Class: class, Site: site, Msg: msg})
 	}
+	if c.Tags["resume"] {
+		monitorResume(c, fail)
+		return fs
+	}
 	if c.Tags["svc"] {
 		monitorSvc(c, fail)
 		return fs
